@@ -23,6 +23,7 @@ from typing import Any, Callable, Dict, List, Optional
 import z3
 
 import crosshair.core_and_libs  # noqa: registers library models + opcode patches
+from . import chmodels  # noqa: model corrections (after registrations)
 from crosshair.core import (
     Patched, gen_args, deep_realize, realize, ExceptionFilter, NoTracing,
     ResumedTracing, COMPOSITE_TRACER,
